@@ -146,4 +146,35 @@ PROPS = {
         "exhaustive_parts": "TestC13Sync enumerates the pair/triple (thorough: 4-tuple) space over the boundary set completely; TestC13Stack samples",
         "assumptions": COMMON_ASSUME,
     },
+    "C18": {
+        "module": "core", "pkg": "./checks", "level": "exploration",
+        "jobs": [
+            {"test": "TestC18Recon", "quick": 1, "thorough": 1, "shards_thorough": 14},
+            {"test": "TestC18Cross", "quick": 1, "thorough": 1, "shards_thorough": 14},
+        ],
+        "rule": "Public API only. TestC18Recon: fresh random polynomials from the exported SSS.Gen per (backend,n,t,L); the shares are wrapped into the "
+                "library's stored-data format; for EVERY subset of size >= t (BLS n<=8, PS n<=5; thorough 10 / 6) in ascending, descending and rotated "
+                "order the partial signatures / witnesses are aggregated by the library (Verifier.AggregateSignatures, "
+                "Prover.ProveKnowledgeOfSignature) and must verify under g2^p(0) computed independently with mathlib (decides the polynomial identity "
+                "up to 2^-240). TestC18Cross: backend-level DKG for every (n,t): keys on one polynomial are accepted (incl. t=n); for t<n every "
+                "position j (and for PS every key component X, Y_k) revealed off the polynomial with a consistent commitment must make every honest "
+                "party return an error. Non-trivial = subset is not the ascending prefix {1..t} / a deviation was delivered. Distinct = (backend,n,t,"
+                "ordered subset) / (backend,n,t,j,component).",
+        "exhaustive_claim": True,
+        "exhaustive_parts": "all (n,t) up to the stated bounds, all subsets of size >= t in three orders, all positions and components; polynomials are random samples",
+        "assumptions": COMMON_ASSUME + ["mathlib group arithmetic for the independent g2^p(0)", "PS generator g2 recomputed with gnark-crypto HashToG2 as the library documents it"],
+    },
+    "C08": {
+        "module": "core", "pkg": "./checks", "level": "exploration",
+        "jobs": [
+            {"test": "TestC08", "quick": 300, "thorough": 12000, "shards_thorough": 14},
+        ],
+        "rule": "rapid draws L in 1..4, a message vector (arbitrary byte strings incl. empty, equal entries, 1 KiB), n in 2..4 (thorough 5), t in 2..n, "
+                "a delivery schedule for the backend-level DKG and the order in which signer subsets are handed to the prover (ascending, descending, "
+                "rotated). Oracle: every KeyGen succeeds; every party reloads its output and reports byte-identical public material; every party signs "
+                "the blinded request; every partial signature unblinds to a witness valid under that signer's published key; for EVERY subset of size "
+                ">= t the proof of knowledge verifies under the threshold key. Every case is non-trivial by construction (generated vector, all "
+                "subsets); distinct = hash of the whole case.",
+        "assumptions": COMMON_ASSUME + ["party identifiers 1..n (all callers; the prover uses the identifier as evaluation point)"],
+    },
 }
